@@ -302,6 +302,26 @@ def r5(ctx, chk):
         ok = nm in aset
     chk.ob(rule, "_simplify_split_align: the first returned list is the word split of the untouched text (padding with '' only)", ok,
            "", key={"function": al.key, "construct": "aligned originals provenance"}, file=al.file, function=al.qual, line=al.node.lineno)
+    # _word_split (what the alignment starts from) keeps every character of the text: str.split() for spaced languages,
+    # the dictionary splitter WITH formatting for the languages written without spaces (without it, punctuation tokens are dropped
+    # and the re-joined substring is no longer a piece of the text)
+    ws = ix.func("dateparser.languages.locale:Locale._word_split")
+    wp = ws.params()[1]
+    wrets = [r_ for r_ in iter_own_nodes(ws.node) if isinstance(r_, ast.Return) and r_.value is not None]
+    for r_ in wrets:
+        v = r_.value
+        ok = False
+        if isinstance(v, ast.Call) and isinstance(v.func, ast.Attribute):
+            if v.func.attr == "split" and ast.unparse(v.func.value) == wp and not v.args:
+                ok = True
+            elif ast.unparse(v.func) == "self._split" and v.args and ast.unparse(v.args[0]) == wp:
+                kf = {k.arg: k.value for k in v.keywords}.get("keep_formatting", v.args[1] if len(v.args) > 1 else None)
+                ok = isinstance(kf, ast.Constant) and kf.value is True
+        chk.ob(rule, "_word_split returns a splitting of the text that keeps every token (`%s`)" % " ".join(ast.unparse(v).split())[:60], ok,
+               "tokens without letters or digits are dropped by the splitter: the substring re-joined from the original tokens skips "
+               "characters of the text ('2019年3月12日(星期二)' -> '2019年3月12日星期二')",
+               key={"function": ws.key, "construct": "word split keeps formatting"}, file=ws.file, function=ws.qual, line=r_.lineno)
+    chk.floor(rule + ".wordsplit", len(wrets), 2, "return statements of _word_split")
     # search.py: substrings come from the original-side argument only
     pf = ix.func("dateparser.search.search:_ExactLanguageSearch.parse_found_objects")
     sp = ix.func("dateparser.search.search:_ExactLanguageSearch.search_parse")
